@@ -115,7 +115,8 @@ def view(v, fn, deep):
     for x in eff:
         if x["e"] == "return" and x.get("val") is not None:
             result = x["val"]
-    return {"ops": ops, "eff": eff, "secs": secs, "result": result, "hooks": hooks}
+    roots = {a: fn.params[i]["t"] for i, a in enumerate(bind_args(fn)) if a is not None}
+    return {"ops": ops, "eff": eff, "secs": secs, "result": result, "hooks": hooks, "roots": roots}
 
 
 def erase_streams(struct):
@@ -299,8 +300,16 @@ def compare(chk, v, tname, W, R, where, vn):
                 elif o["op"] == "if":
                     loopvars(o["then"], acc); loopvars(o["else"], acc)
         loopvars(ws, wvars); loopvars(rs, rvars)
-        wt = lambda t: wv(t)
-        rt = lambda t: sym.subst(rw(t), loopmap)
+        # dimension fields a constructor derives from others (kpl = (k+1)*l, base = 1 << basebit) are replaced by their definition,
+        # so that the assignments of the dimensions below are ones a real object can have
+        from sa import bounds as _bounds
+        if not hasattr(v, "_ctor_rel"):
+            v._ctor_rel = _bounds.ctor_relations(v)
+        roots_ = dict(W.get("roots") or {})
+        roots_.update(R.get("roots") or {})
+        rel_ = lambda t: _bounds.apply_relations(v, t, roots_, v._ctor_rel) if isinstance(t, tuple) else t
+        wt = lambda t: rel_(wv(t))
+        rt = lambda t: rel_(sym.subst(rw(t), loopmap))
         # dimension atoms: everything a bound / condition mentions that is not a loop variable
         dims = []
 
@@ -379,7 +388,7 @@ def compare(chk, v, tname, W, R, where, vn):
             return out
 
         def inst(t, env):
-            return sym.subst(t, {k_: I(v_) for k_, v_ in env.items() if isinstance(v_, int)})
+            return sym.fold(sym.subst(t, {k_: I(v_) for k_, v_ in env.items() if isinstance(v_, int)}))
         assignments = [{d: 2 + (k_ % 2) for k_, d in enumerate(dims)}, {d: 3 - (k_ % 2) for k_, d in enumerate(dims)}, {d: 1 for d in dims}]
         checked = 0
         for asg in assignments:
